@@ -483,9 +483,11 @@ def execute(plan):
                             f"max|dP|={np.max(np.abs(P2 - P)):.3g}")
         if plan["subsample"] and plan["subsample"] != "fast" and n >= 8:
             out3 = call(run_decomp, plan, build(plan), plan["seed"] + 1)
+            # evidence only: the property asks for equal results from equal seeds, not for
+            # different results from different seeds - and two sub-samples can legitimately
+            # lead to the same factors (intensities saturating at their bounds: soak, seed 300)
             if out3.ok and np.asarray(out3.value[1]).tobytes() == P.tobytes():
-                raise Violation(ID, "seed_ignored", "seed and seed+1 give identical opacities "
-                                "with subsampling")
+                bump("seed_plus_one_gave_identical_opacities")
             bump("seed_sensitivity_checks")
         # ---- faults: the k-th solve fails / the call is interrupted at the n-th dreye line ------
         if plan.get("fault"):
